@@ -1,4 +1,4 @@
-import GnoVerif.Proofs.C31Abs
+import GnoVerif.Proofs.C31Final
 /-!
 C31 — honest nodes never commit conflicting blocks.
 
@@ -10,6 +10,14 @@ validators, every assignment of voting powers, every set of faulty validators ho
 one third of the power, every number of heights and rounds, and every schedule (`AReach`: any
 interleaving of honest steps and arbitrary faulty votes; delays, reordering, duplication and loss
 are invisible because guards only ask for the existence of a quorum in the monotone vote log).
+
+PART B (section "the executable node model"): `Model/C31.lean` is a function-by-function model
+of ONE node (`state.go`'s handleMsg / handleTimeout / enter* functions, `HeightVoteSet`, the
+ticker's replacement rule, on top of the C35 model of `VoteSet`); it is the model the correspondence
+run compares, transition by transition, with the real `ConsensusState`.  `Model/C31Sys.lean` puts
+one such node per honest validator under an arbitrary scheduler.  `refinement` proves that this
+system refines the abstract protocol, hence `agreement_exec`: the executable nodes never decide
+differently either.
 
 Liveness (the statement's second sentence) is NOT claimed: `liveness_statement` below is left
 unproved on purpose.
@@ -136,6 +144,92 @@ theorem agreement_needs_fault_bound : ¬ agreement_statement cfgBad := by
   have s10 := AReach.decide s9 1 20 0 (by decide) (by decide)
   have := hA _ s10 0 1 (by decide) (by decide) 1 10 20 (by decide) (by decide)
   exact absurd this (by decide)
+
+/-! ### the executable node model (PART B) -/
+
+/-- **Vote sets count only signed votes.**  In every reachable state of the system of executable
+nodes, a `+2/3` majority reported by any vote set of an honest node (`HeightVoteSet` over the C35
+`VoteSet` model: first vote per validator, conflicting votes only under a peer's +2/3 claim, two
+catch-up rounds per peer) is a quorum of votes that were really signed. -/
+theorem exec_maj23_is_signed_quorum (c : SysCfg) {σ : SysState} (h : SysReach c σ) {p : Val}
+    (hp : c.abs.honest p) {r : Nat} {t : VType} {bid : Option Block}
+    (hm : (σ.nodes p).votes.maj23 r t = some bid) :
+    quorum c.abs σ.votes (σ.nodes p).height r t bid := by
+  obtain ⟨σa, _, hc⟩ := refinement h
+  exact (hc.good p hp).hvs.maj23_quorum hm
+
+/-- **One iteration of the receive routine refines the abstract protocol.**  From a state
+satisfying the local invariant, `handle` on any admissible input (any proposal, any block part, any
+really signed vote, any badly signed vote, the own queue, the pending timeout, any +2/3 claim) is
+simulated by a finite sequence of abstract actions emitting exactly the votes it signs, and
+re-establishes the invariant. -/
+theorem exec_step_refines (c : SysCfg) {p : Val} {s : Node} {L : List Vote} (hg : Good c p s L)
+    (i : Input) (hi : InputOK L i) : ∃ L', Sim c p L s L' (handle (c.node p) s i) :=
+  handle_sim hg i hi
+
+/-- **Refinement.**  Every reachable state of the system of executable nodes — any number of
+validators and powers, any faulty set, any schedule — is coupled with a reachable state of the
+abstract protocol: same vote log, and each honest node's height, round, prevote / precommit
+marks, lock and decisions are those of its abstract image. -/
+theorem exec_refines_abstract (c : SysCfg) {σ : SysState} (h : SysReach c σ) :
+    ∃ σa, AReach c.abs σa ∧ σa.log = σ.votes ∧
+      ∀ p, c.abs.honest p → σa.nodes p = absNode (σ.nodes p) := by
+  obtain ⟨σa, hr, hc⟩ := refinement h
+  exact ⟨σa, hr, hc.log, hc.nodes⟩
+
+/-- The first sentence of the property on the system of executable nodes. -/
+def agreement_exec_statement (c : SysCfg) : Prop :=
+  ∀ σ, SysReach c σ → ∀ p q, c.abs.honest p → c.abs.honest q → ∀ H b b',
+    (H, b) ∈ (σ.nodes p).decided → (H, b') ∈ (σ.nodes q).decided → b = b'
+
+/-- **Agreement for the executable model.**  Nodes running the model of `state.go` never finalise
+different blocks at the same height: every validator set and powers, faulty power at most one
+third, every schedule of deliveries (any order, duplicates, losses), timeouts, +2/3 claims,
+forged proposals and blocks, and arbitrary votes of the faulty validators. -/
+theorem agreement_exec (c : SysCfg) (hf : c.abs.FewFaulty) : agreement_exec_statement c :=
+  fun _ h _ _ hp hq _ _ _ hd hd' => sys_agreement hf h hp hq hd hd'
+
+/-- The executable node never signs two different prevotes, or two different precommits, for one
+height and round. -/
+theorem exec_votes_once (c : SysCfg) {σ : SysState} (h : SysReach c σ) {p : Val} (hp : c.abs.honest p)
+    {v v' : Vote} (hv : v ∈ σ.votes) (hv' : v' ∈ σ.votes) (hs : v.sender = p) (hs' : v'.sender = p)
+    (hh : v.height = v'.height) (hrd : v.round = v'.round) (ht : v.type = v'.type) : v = v' := by
+  have := (sys_pinv h hp).uniq v hv v' hv' hs hs' hh hrd ht
+  cases v; cases v'; simp_all
+
+/-- The executable node precommits a block only on +2/3 prevotes for it in the same round. -/
+theorem exec_precommit_has_polka (c : SysCfg) {σ : SysState} (h : SysReach c σ) {p : Val}
+    (hp : c.abs.honest p) {H r : Nat} {b : Block} (hv : ⟨p, H, r, .precommit, some b⟩ ∈ σ.votes) :
+    polka c.abs σ.votes H r (some b) :=
+  (sys_pinv h hp).pcPolka _ hv rfl rfl b rfl
+
+/-- The executable node never prevotes against its lock: if it prevoted something else than `b`
+at a round `ρ` after precommitting `b` at `r < ρ`, then +2/3 prevotes for something else than `b`
+at a round in `(r, ρ]` had been signed BEFORE that prevote. -/
+theorem exec_prevote_respects_lock (c : SysCfg) {σ : SysState} (h : SysReach c σ) {p : Val}
+    (hp : c.abs.honest p) {i H r ρ : Nat} {b : Block} {w : Option Block}
+    (hm : σ.votes[i]? = some ⟨p, H, ρ, .prevote, w⟩) (hv : ⟨p, H, r, .precommit, some b⟩ ∈ σ.votes)
+    (hr : r < ρ) (hw : w ≠ some b) :
+    ∃ ρ' w', r < ρ' ∧ ρ' ≤ ρ ∧ w' ≠ some b ∧ polka c.abs (σ.votes.take i) H ρ' w' :=
+  (sys_pinv h hp).hist i _ hm rfl rfl _ hv rfl rfl rfl hr b rfl hw
+
+/-! #### non-vacuity: the executable node does decide -/
+
+/-- one validator: it proposes, prevotes, precommits and commits alone -/
+def sys1 : SysCfg := { powers := [1], byz := fun _ => false, proposer := fun _ _ => 0 }
+example : sys1.abs.FewFaulty := by decide
+example : sys1.abs.honest 0 := by decide
+
+/-- `start`, the NewHeight timeout, then its own proposal, block part, prevote and precommit from
+the internal queue: the model node finalises its own block at height 1 (a reachable system
+state in which an honest node has decided, so `agreement_exec` is not vacuous). -/
+theorem exec_decisions_reachable :
+    ∃ σ, SysReach sys1 σ ∧ (1, ownBlock 1) ∈ (σ.nodes 0).decided := by
+  obtain ⟨σ, hr, he⟩ := SysReachFrom.runLocal (c := sys1) (σ := SysState.init sys1) 0 (by decide)
+    [.start, .timeout, .internal, .internal, .internal, .internal] (by decide)
+  refine ⟨σ, hr.reach .init, ?_⟩
+  rw [he]
+  decide
 
 /-! ### liveness — not claimed -/
 
